@@ -472,11 +472,11 @@ def _stdspec(prop: str, which) -> List[Obl]:
                 note="discharges an assume_specification / std rewrite used by the Verus units") for w in which]
 
 
-def _verus_rice(prop: str, which) -> List[Obl]:
+def _verus_rice(prop: str, which, feats="") -> List[Obl]:
     out = []
     for fn, src in which:
-        out.append(Obl(id=f"{prop.lower()}.verus.rice.{fn}", prop=prop, engine="verus", target=f"rice:{fn}", fns=[src] if src else [],
-                       note="every log2_b in 0..=63, every value, unbounded quotient (Seq<bool> stream contract); default configuration"))
+        out.append(Obl(id=f"{prop.lower()}.verus.rice.{fn}" + (".checks" if feats else ""), prop=prop, engine="verus", target=f"rice:{fn}", fns=[src] if src else [],
+                       features=feats, note="every log2_b in 0..=63, every value, unbounded quotient (Seq<bool> stream contract); " + ("checks" if feats else "default") + " configuration"))
     return out
 
 
@@ -488,11 +488,11 @@ def _verus_zeta(prop: str, which, feats="") -> List[Obl]:
     return out
 
 
-def _verus_pi(prop: str, which) -> List[Obl]:
+def _verus_pi(prop: str, which, feats="") -> List[Obl]:
     out = []
     for fn, src in which:
-        out.append(Obl(id=f"{prop.lower()}.verus.pi.{fn}", prop=prop, engine="verus", target=f"pi:{fn}", fns=[src] if src else [],
-                       note="every k in 0..=63, every value below 2^64-1, Seq<bool> stream contract; default configuration"))
+        out.append(Obl(id=f"{prop.lower()}.verus.pi.{fn}" + (".checks" if feats else ""), prop=prop, engine="verus", target=f"pi:{fn}", fns=[src] if src else [],
+                       features=feats, note="every k in 0..=63, every value below 2^64-1, Seq<bool> stream contract; " + ("checks" if feats else "default") + " configuration"))
     return out
 
 
@@ -501,11 +501,12 @@ V_P_R = ("read_pi", "codes::pi::PiRead::read_pi")
 V_P_L = ("len_pi", "codes::pi::len_pi")
 V_P_LEMMAS = [(l, "") for l in ("lemma_pi_lambda", "lemma_pi_small", "lemma_pi_split", "lemma_pi_pre", "lemma_pi_q", "lemma_pi_value", "lemma_pi_top", "lemma_pi_r",
                                  "write_rice", "read_rice", "len_rice")]
-def _verus_eg(prop: str, which) -> List[Obl]:
+def _verus_eg(prop: str, which, feats="") -> List[Obl]:
     out = []
     for fn, src in which:
-        out.append(Obl(id=f"{prop.lower()}.verus.exp_golomb.{fn}", prop=prop, engine="verus", target=f"exp_golomb:{fn}", fns=[src] if src else [],
-                       note="every k in 0..=63, every value below 2^64-1, Seq<bool> stream contract; default configuration; gamma entry points by contract "
+        out.append(Obl(id=f"{prop.lower()}.verus.exp_golomb.{fn}" + (".checks" if feats else ""), prop=prop, engine="verus", target=f"exp_golomb:{fn}", fns=[src] if src else [],
+                       features=feats,
+                       note="every k in 0..=63, every value below 2^64-1, Seq<bool> stream contract; " + ("checks" if feats else "default") + " configuration; gamma entry points by contract "
                             "(default implementation proved here, table variants by Kani)"))
     return out
 
@@ -819,6 +820,9 @@ def _c19() -> List[Obl]:
                        kind="bounded", bound="constant modulus; " + UNARY_BOUND, fns=CODE_FNS["golomb"]))
     out += _verus_golomb("C19", [V_MB_W, V_G_W], feats=("checks",))
     out += _verus_zeta("C19", [V_Z_W, ("write_minimal_binary", "")], feats="checks")
+    out += _verus_rice("C19", [V_R_W, ("lemma_mask128", ""), ("lemma_masked_field", "")], feats="checks")
+    out += _verus_pi("C19", [V_P_W, ("lemma_xor_top", "")], feats="checks")
+    out += _verus_eg("C19", [V_G2_W, V_E_W], feats="checks")
     # bulk copies and byte writes under `checks`; generic copy loops under `no_copy_impls`
     for u, fn in (("copy_to_generic", "copy_to"), ("copy_from_generic", "copy_from")):
         out.append(Obl(id=f"c19.checks.generic.{fn}", prop="C19", engine="verus", target=f"{u}:{fn}", features="checks",
